@@ -2,7 +2,8 @@
 import re
 
 from .. import lib, mir
-from ..mir import render, strip_generics
+from .. import lib_proto as P
+from ..mir import strip_generics
 
 EXPLANATION = ("AsServer::filter_valid_addrs: the observed ip is the first Ip4/Ip6 component of the observed address (none => no addresses); the "
                "per-address closure yields Some only through distinct.insert(..).then_some(addr) on the true edge of the validity test; the "
@@ -20,10 +21,12 @@ ASSUMPTIONS = ["Multiaddr::replace / push / iter semantics", "DNS components are
                "throttle expiry arithmetic over Instants is not decided", "the observed address recorded in `connected` is the swarm's remote address of a non-relayed connection"]
 AN = "libp2p_autonat"
 FVA = r"^libp2p_autonat::v1::behaviour::as_server::AsServer::filter_valid_addrs"
+SADT = r"^libp2p_autonat::v1::behaviour::as_server::AsServer$"
 IPS = {"Ip4", "Ip6"}
 
 SELFTEST = [
-    {"mutation": "is_valid without the Ip4|Ip6 arm (the tree before the F13 fix 596c3cd) / only Ip4 checked", "caught_by": "filter/validity table: Ip4|Ip6 -> == observed ip"},
+    {"mutation": "is_valid without the Ip4|Ip6 arm (the tree before the F13 fix 596c3cd)", "caught_by": "filter/validity table: Ip4|Ip6 -> == observed ip"},
+    {"mutation": "seeded/C50: validity arm narrowed to `Ip4(_) => proto == observed_ip`", "caught_by": "filter/validity table: Ip4|Ip6 -> == observed ip"},
     {"mutation": "`any(P2p)` instead of `last() is P2p` before appending the peer id (the tree before the F13 fix)", "caught_by": "filter/peer id appended unless the address already ends with /p2p"},
     {"mutation": "P2pCircuit => true", "caught_by": "filter/validity table: P2pCircuit -> false"},
     {"mutation": "P2p(_) => true", "caught_by": "filter/validity table: P2p(id) -> id == peer"},
@@ -38,193 +41,230 @@ SELFTEST = [
 ]
 
 
-def ret_exprs(b):
-    return [(mir.Site(b, d[1], d[2]), b.site_expr(mir.Site(b, d[1], d[2]))) for d in b.defs.get(0, [])]
-
-
-def variant_table(b, switch_pat=r"^discr\((p|proto)\)$"):
-    """variant -> rendered result for a closure of the form `|p| match p {..}` returning bool/values per arm."""
+def variant_table(prog, b, subject=lambda e: e[0] == "arg" and e[1] == 2):
+    """variant -> set of root-resolved normalised results for a closure `|p| match p {..}`."""
     tab = {}
-    for s, e in ret_exprs(b):
-        labs = None
-        for text, labels, _, _ in b.guards_on_all_paths(s.bb):
-            if re.search(switch_pat, text):
-                labs = set(labels)
-        if labs is None:
-            tab.setdefault("*", set()).add(render(e))
-            continue
-        for l in labs:
-            tab.setdefault(l, set()).add(render(e))
+    for s, e in P.ret_exprs(b):
+        labs = P.known_labels(b, s.bb, subject)
+        c = P.cmpnf(e)
+        if c is not None and c[0] in ("Eq", "Ne"):
+            sides = sorted([P.rr(prog, b, c[1]), P.rr(prog, b, c[2])])
+            txt = "%s(%s, %s)" % (c[0], sides[0], sides[1])
+        else:
+            txt = P.Norm(b).r(e)
+        for l in (labs if labs else {"*"}):
+            tab.setdefault(l, set()).add(txt)
     return tab
 
 
+def matches_set(prog, body, e):
+    cs = P.closures_in(prog, body, e)
+    return lib.matches_variants(cs[0][1]) if cs else None
+
+
 def check(ctx):
-    mir.RENDER_MAX[0] = 30
-    try:
-        _check(ctx, ctx.prog)
-    finally:
-        mir.RENDER_MAX[0] = 14
+    _check(ctx, ctx.prog)
 
 
 def _check(ctx, prog):
-    # ================================================================= filter_valid_addrs
+    # ================================================================= filter_valid_addrs(peer = $1, demanded = $2, observed_remote_at = $3)
     f = ctx.body(AN, FVA + "$")
-    OBS = None
+    N = P.Norm(f)
     fn = f.call_sites(r"Iterator::find$")
     ctx.floor("filter", "search for the observed ip", fn, 1, exact=True)
+    OBS = None
     for s in fn:
         e = f.site_expr(s)
-        a0 = e[2][0]
-        ctx.ob("filter", "the observed ip is searched in the observed address", a0[0] == "call" and a0[2][0][0] == "arg" and a0[2][0][1] == 3, s.loc(), render(a0))
-        cl = lib.closure_of(prog, f, e)
-        vs = lib.matches_variants(cl) if cl is not None else None
+        ctx.ob("filter", "the observed ip is searched in the observed address", any(x[0] == "arg" and x[1] == 3 for x in mir.walk(e[2][0])) and P.call_is(e[2][0], r"into_iter$|::iter$"), s.loc(), N.r(e[2][0]))
+        vs = matches_set(prog, f, e)
         ctx.ob("filter", "observed ip = first Ip4/Ip6 component", vs == IPS, s.loc(), str(vs))
-        OBS = render(e) + "@Some.0"
-    none = lib.switch_edges_on(f, r"^discr\(std::iter::Iterator::find\(", {"None"})
-    rs = ret_exprs(f)
-    empty = [s.bb for s, e in rs if render(e) == "std::vec::Vec::new()"]
-    got = lib.count_range(f, [t for _, t in none], f.return_blocks(), empty) if none else None
-    fm_reach = any(s.bb in f.reachable([t for _, t in none]) for s in f.call_sites(r"Iterator::filter_map$")) if none else True
-    ctx.ob("filter", "no observed ip => nothing is dialled", got == (1, 1) and not fm_reach, "%s:%d" % (f.file, f.line), "Vec::new() on the None edge: %s" % (got,))
-    fm = f.call_sites(r"Iterator::filter_map$")
-    ctx.floor("filter", "filter_map over the demanded addresses", fm, 1, exact=True)
-    res = [e for s, e in rs if render(e) != "std::vec::Vec::new()"]
-    ctx.ob("filter", "the result is exactly the filtered demanded addresses", len(res) == 1 and render(res[0]).startswith("std::iter::Iterator::collect(std::iter::Iterator::filter_map(<std::vec::Vec as std::iter::IntoIterator>::into_iter(demanded), closure:"),
-           msg=render(res[0])[:140] if res else "")
-    c1 = lib.closure_of(prog, f, f.site_expr(fm[0])) if fm else None
-    if c1 is None:
-        raise mir.RuleError("filter_map closure not found")
-    ctx.use(c1)
-    ce = [x for x in mir.walk(f.site_expr(fm[0])) if x[0] == "closure"][0]
-    ups = [render(u) for u in ce[2]]
-    ctx.ob("filter", "the per-address closure captures the observed ip and the requester", OBS in ups and "peer" in ups, fm[0].loc(), str([u[-50:] for u in ups]))
-    # results of the per-address closure
-    allc = c1.call_sites(r"Iterator::all$")
+        OBS = N.r(e) + "@+"
+    none = P.outcome_edges(f, lambda e: bool(fn) and e[0] == "call" and e[3] == fn[0].bb, False)
+    E = P.elementwise(prog, f)
+    if E is None:
+        raise mir.RuleError("filter_valid_addrs: neither a filter_map adaptor nor a for-loop producing the result was recognised")
+    B = E.body
+    ctx.use(B)
+    BN = P.Norm(B, ids=True)
+    rs = P.ret_exprs(f)
+    empty = [s.bb for s, e in rs if N.r(e) in ("std::vec::Vec::new()", "<std::vec::Vec as std::default::Default>::default()")]
+    got = lib.count_range(f, P.targets(none), f.return_blocks(), empty) if none else None
+    reach = E.site.bb in f.reachable(P.targets(none)) if none else True
+    ctx.ob("filter", "no observed ip => nothing is dialled", got == (1, 1) and not reach, "%s:%d" % (f.file, f.line), "empty result on the None edge: %s; address processing reachable: %s" % (got, reach))
+    ctx.ob("filter", "the result is produced element by element from the demanded addresses", N.r(E.source) == "$2", E.site.loc(), "%s form over %s" % (E.kind, N.r(E.source)))
+    if E.kind == "adaptor":
+        res = [e for s, e in rs if s.bb not in empty]
+        ok = len(res) == 1 and P.call_is(res[0], r"Iterator::collect$") and res[0][2][0][0] == "call" and res[0][2][0][3] == E.site.bb
+        ctx.ob("filter", "nothing but the filtered addresses is returned", ok, E.site.loc(), N.r(res[0])[:120] if res else "")
+    else:
+        outs = {e[1] for _, e in rs if e[0] == "local"}
+        pushes = [s for s in f.call_sites(r"Vec::(push|insert|extend|append|extend_from_slice)$") if f.site_expr(s)[2][0][0] == "local" and f.site_expr(s)[2][0][1] in outs]
+        ok = len(outs) == 1 and {s.bb for s in pushes} == {k[0].bb for k in E.keeps} and all(e[0] == "local" or s.bb in empty for s, e in rs)
+        ctx.ob("filter", "nothing but the filtered addresses is returned", ok, E.site.loc(), "pushes into the returned vector: %d, all inside the per-address loop" % len(pushes))
+    region = B.reachable([E.entry], stop_nodes=E.ends)
+    got = lib.count_range(B, [E.entry], E.ends, [k[0].bb for k in E.keeps])
+    ctx.ob("filter", "each demanded address yields at most one dial-back address", got is not None and got[1] <= 1 and len(E.keeps) >= 1, E.site.loc(), "kept results per demanded address: %s" % (got,))
+    # ---- the validity test
+    allc = [s for s in B.call_sites(r"Iterator::all$") if s.bb in region]
     ctx.floor("filter", "validity test", allc, 1, exact=True)
-    te = lib.switch_edges_on_site(c1, allc[0], {"true"}) if allc else set()
-    pos = 0
-    for s, e in ret_exprs(c1):
-        r = render(e)
-        if r == "std::option::Option::None{}" or (e[0] == "call" and strip_generics(e[1]).endswith("FromResidual>::from_residual")):
-            continue
-        pos += 1
-        ok = bool(te) and c1.must_pass_edges(s.bb, te)
-        ctx.ob("filter", "an address is kept only if it is valid", ok, s.loc(), "Some(addr) is reachable only through the true edge of the validity test" if ok else "a kept address bypasses the validity test: %s" % r[:100])
-        ctx.ob("filter", "only distinct addresses are kept", r == "core::bool::then_some(std::collections::HashSet::insert(^distinct, <libp2p_core::Multiaddr as std::clone::Clone>::clone(addr)), addr)", s.loc(), r[:140])
-    ctx.ob("filter", "floor:kept result", pos == 1, nontrivial=False, msg=str(pos))
-    # replacement
-    rep = c1.call_sites(r"Multiaddr::replace$")
+    te = P.truth_edges(B, P.is_call_at(allc[0]), True, E.entry) if allc else set()
+    dins = [s for s in B.call_sites(r"HashSet::insert$") if s.bb in region]
+    for ks, kexpr, kcond in E.keeps:
+        ok = bool(te) and B.must_pass_edges(ks.bb, te, E.entry)
+        ctx.ob("filter", "an address is kept only if it is valid", ok, ks.loc(), "the kept result is reachable only through the true edge of the validity test" if ok else "a kept address bypasses the validity test")
+        d_ok = False
+        if kcond is not None:
+            d_ok = kcond[0] == "call" and any(kcond[3] == d.bb for d in dins)
+        elif dins:
+            d_ok = B.must_pass_edges(ks.bb, P.truth_edges(B, P.is_call_at(dins[0]), True, E.entry), E.entry)
+        ctx.ob("filter", "only distinct addresses are kept", d_ok and len(dins) == 1, ks.loc(), "kept only when distinct.insert(addr.clone()) returned true")
+    # ---- replacement and the validated address
+    rep = [s for s in B.call_sites(r"Multiaddr::replace$") if s.bb in region]
     ctx.floor("filter", "replacement of the demanded ip", rep, 1, exact=True)
+    ELEM = BN.r(E.elem)
     for s in rep:
-        e = c1.site_expr(s)
-        pc = lib.closure_of(prog, c1, e[2][1])
-        vs = lib.matches_variants(pc) if pc is not None else None
-        ctx.ob("filter", "the replaced component is the first Ip4/Ip6 of the demanded address", vs == IPS and render(e[2][1]).startswith("<std::option::Option as std::ops::Try>::branch(std::iter::Iterator::position(libp2p_core::Multiaddr::iter(addr), closure:") and
-               render(e[2][0]) == "addr", s.loc(), str(vs))
-        rc = lib.closure_of(prog, c1, e[2][2])
-        rr = [render(x) for _, x in ret_exprs(rc)] if rc is not None else []
-        ctx.ob("filter", "it is replaced by the observed ip", rr == ["std::option::Option::Some{0: <libp2p_core::multiaddr::Protocol as std::clone::Clone>::clone(^observed_ip)}"], s.loc(), str(rr))
-    # the validated address is the replaced one (local `addr` re-bound)
+        e = B.site_expr(s)
+        vs = matches_set(prog, B, e[2][1])
+        pos = BN.r(e[2][1])
+        ctx.ob("filter", "the replaced component is the first Ip4/Ip6 of the demanded address", vs == IPS and pos == "std::iter::Iterator::position(libp2p_core::Multiaddr::iter(%s), closure[])@+" % ELEM and BN.r(e[2][0]) == ELEM, s.loc(), pos[:160])
+        rcs = P.closures_in(prog, B, e[2][2])
+        rr_ = []
+        for _, rc in rcs[:1]:
+            for _, x in P.ret_exprs(rc):
+                if x[0] == "agg" and x[3] == "Some":
+                    v = dict(x[4])["0"]
+                    inner = v[2][0] if P.call_is(v, r"Clone>::clone$|Clone::clone$") else v
+                    rr_.append(P.rr(prog, rc, inner))
+                else:
+                    rr_.append("?" + P.Norm(rc).r(x))
+        ctx.ob("filter", "it is replaced by the observed ip", rr_ == [OBS], s.loc(), str(rr_)[:200])
+    VL = None
     for s in allc:
-        e = c1.site_expr(s)
+        e = B.site_expr(s)
         a = e[2][0]
-        ok = a[0] == "call" and strip_generics(a[1]).endswith("Multiaddr::iter") and a[2][0][0] == "local"
-        src = render(c1.init_expr(a[2][0][1])) if ok else ""
-        ctx.ob("filter", "validity is tested on the address after the replacement", ok and src.startswith("<std::option::Option as std::ops::Try>::branch(libp2p_core::Multiaddr::replace(") and bool(rep) and c1.dominates(rep[0].bb, s.bb), s.loc(), src[:120])
-        vc = lib.closure_of(prog, c1, e)
-        if vc is None:
+        ok = P.call_is(a, r"Multiaddr::iter$") and a[2][0][0] == "local"
+        VL = a[2][0][1] if ok else None
+        src = BN.r(B.init_expr(VL)) if ok else ""
+        ctx.ob("filter", "validity is tested on the address after the replacement", ok and bool(rep) and src == BN.site(rep[0]) + "@+" and B.dominates(rep[0].bb, s.bb), s.loc(), src[:120])
+        vcs = P.closures_in(prog, B, e[2][1])
+        if not vcs:
             ctx.ob("filter", "validity closure found", False, s.loc())
             continue
+        vc = vcs[0][1]
         ctx.use(vc)
-        tab = variant_table(vc)
-        ctx.ob("filter", "validity table: P2pCircuit -> false", tab.get("P2pCircuit") == {"0"}, "%s:%d" % (vc.file, vc.line), str(tab.get("P2pCircuit")))
-        ctx.ob("filter", "validity table: P2p(id) -> id == peer", tab.get("P2p") == {"<libp2p_core::PeerId as std::cmp::PartialEq>::eq(proto@P2p.0, ^peer)"}, "%s:%d" % (vc.file, vc.line), str(tab.get("P2p")))
-        ipok = all(len(tab.get(k, ())) == 1 and re.match(r"^(<libp2p_core::multiaddr::Protocol as std::cmp::PartialEq>::eq|std::cmp::PartialEq::eq|std::cmp::impls::eq)\((proto, \^observed_ip|\^observed_ip, proto)\)$", next(iter(tab[k]))) is not None for k in IPS)
-        ctx.ob("filter", "validity table: Ip4|Ip6 -> == observed ip", ipok, "%s:%d" % (vc.file, vc.line),
-               "Ip4 -> %s, Ip6 -> %s%s" % (tab.get("Ip4"), tab.get("Ip6"), "" if ipok else " — an ip component other than the replaced one passes unchecked, so the server can be made to dial a foreign ip"))
+        tab = variant_table(prog, vc)
+        where = "%s:%d" % (vc.file, vc.line)
+        ctx.ob("filter", "validity table: P2pCircuit -> false", tab.get("P2pCircuit") == {"0"}, where, str(tab.get("P2pCircuit")))
+        ctx.ob("filter", "validity table: P2p(id) -> id == peer", tab.get("P2p") == {"Eq($1, $2@P2p)"}, where, str(tab.get("P2p")))
+        want_ip = {"Eq(%s, %s)" % tuple(sorted(["$2", OBS]))}
+        ipok = all(tab.get(k) == want_ip for k in IPS)
+        ctx.ob("filter", "validity table: Ip4|Ip6 -> == observed ip", ipok, where,
+               "Ip4 -> %s, Ip6 -> %s%s" % (str(tab.get("Ip4"))[:90], str(tab.get("Ip6"))[:90], "" if ipok else " — an ip component other than the replaced one passes unchecked, so the server can be made to dial a foreign ip"))
         rest = {k: v for k, v in tab.items() if k not in IPS | {"P2p", "P2pCircuit"}}
-        ctx.ob("filter", "validity table: other components pass", len(rest) > 20 and all(v == {"1"} for v in rest.values()), "%s:%d" % (vc.file, vc.line), "%d other variants -> %s" % (len(rest), sorted({x for v in rest.values() for x in v})))
-        ups_v = [render(u) for u in [x for x in mir.walk(e) if x[0] == "closure"][0][2]]
-        ctx.ob("filter", "validity compares with the requester and the observed ip of this request", "^peer" in ups_v and (not ipok or "^observed_ip" in ups_v), s.loc(), str(ups_v))
-    # peer id appended
-    push = [s for s in c1.call_sites(r"Multiaddr::push$") if render(c1.site_expr(s)) == "libp2p_core::Multiaddr::push(addr, libp2p_core::multiaddr::Protocol::P2p{0: ^peer})"]
+        ctx.ob("filter", "validity table: other components pass", len(rest) > 20 and all(v == {"1"} for v in rest.values()), where, "%d other variants -> %s" % (len(rest), sorted({x for v in rest.values() for x in v})))
+    for ks, kexpr, kcond in E.keeps:
+        if kexpr is not None:
+            ctx.ob("filter", "the kept address is the validated one", kexpr[0] == "local" and kexpr[1] == VL, ks.loc(), BN.r(kexpr))
+    # ---- peer id appended
+    push = []
+    for s in B.call_sites(r"Multiaddr::push$"):
+        e = B.site_expr(s)
+        if s.bb in region and e[2][0][0] == "local" and e[2][0][1] == VL and e[2][1][0] == "agg" and e[2][1][3] == "P2p" and P.rr(prog, B, dict(e[2][1][4])["0"]) == "$1":
+            push.append(s)
     ctx.floor("filter", "append /p2p/<peer>", push, 1, exact=True)
-    LAST = r"^discr\(std::iter::Iterator::last\(libp2p_core::Multiaddr::iter\(addr\)\)\)$"
-    LASTV = r"^discr\(std::iter::Iterator::last\(libp2p_core::Multiaddr::iter\(addr\)\)@Some\.0\)$"
-    skip = set()
-    for bi in c1.live:
-        info = c1.switch_info(bi)
-        if info and re.search(LASTV, render(info[0])):
-            for tg, ls in info[1].items():
-                if ls == {"P2p"}:
-                    skip.add((bi, tg))
-    # `matches!(addr.iter().last(), Some(P2p(_)))` lowers to a bool local that is 1 only on the P2p arm: its true edges count as well
-    for bi in c1.live:
-        info = c1.switch_info(bi)
-        if not info:
-            continue
-        cond, labs = info
-        neg = False
-        while cond[0] == "un" and cond[1] == "Not":
-            cond, neg = cond[2], not neg
-        if cond[0] != "local":
-            continue
-        ds = c1.defs.get(cond[1], [])
-        vals = [(d, c1.rvalue_expr(d[3])) for d in ds if d[0] == "stmt"]
-        if len(vals) != len(ds) or not vals or any(v[0] != "const" or v[1] not in (0, 1) for _, v in vals):
-            continue
-        ones = [d for d, v in vals if v[1] == 1]
-        sound = bool(ones) and all(any(re.search(LASTV, text) and set(labels) == {"P2p"} for text, labels, _, _ in c1.guards_on_all_paths(d[1])) for d in ones)
-        if not sound:
-            continue
-        for tg, ls in labs.items():
-            if ls == {"false" if neg else "true"}:
-                skip.add((bi, tg))
-    kept = [s for s, e in ret_exprs(c1) if render(e).startswith("core::bool::then_some(")]
-    ok = bool(push) and bool(skip) and bool(kept) and all(c1.must_pass_edges(k.bb, set(skip) | {(p_, c1.succ[p_][0]) for p_ in lib.bbs(push)}, allc[0].bb if allc else 0) for k in kept)
+    LASTV = "std::iter::Iterator::last(libp2p_core::Multiaddr::iter(%%%s))@+" % VL
+    skip = B.derive_edges(P.variant_edges(B, lambda e: BN.r(e) == LASTV, {"P2p"}), None, E.entry)
+    after_push = {(pb, B.succ[pb][0]) for pb in lib.bbs(push)}
+    ok = bool(push) and bool(skip) and bool(allc) and all(B.must_pass_edges(k[0].bb, set(skip) | after_push, allc[0].bb) for k in E.keeps)
     why = "every kept address either already ends with /p2p (validated == peer) or gets /p2p/<peer> appended"
     if not ok:
         why = "a kept address may not end with the requester's peer id: the append is skipped on a test other than `last component is /p2p`"
     ctx.ob("filter", "peer id appended unless the address already ends with /p2p", ok, push[0].loc() if push else "", why)
-    # ================================================================= resolve_inbound_request
+    # ================================================================= resolve_inbound_request(self, sender = $2, request = $3)
+    F_THR = P.field_by_type(prog, AN, SADT, r"Vec<\(")                                   # throttled_clients
+    F_ONG = P.field_by_type(prog, AN, SADT, r"HashMap<libp2p_core::PeerId, \(")           # ongoing_inbound
+    F_CON = P.field_by_type(prog, AN, SADT, r"HashMap<libp2p_core::PeerId, std::collections::HashMap<")   # connected
+    F_CFG = P.field_by_type(prog, AN, SADT, r"Config$")
+    THR, ONG, CON, CFG = "self." + F_THR, "self." + F_ONG, "self." + F_CON, "self." + F_CFG
     r = ctx.body(AN, r"^libp2p_autonat::v1::behaviour::as_server::AsServer::resolve_inbound_request$")
-    oks = [(s, e) for s, e in ret_exprs(r) if e[0] == "agg" and e[3] == "Ok"]
+    R = P.Norm(r)
+    oks = [(s, e) for s, e in P.ret_exprs(r) if e[0] == "agg" and e[3] == "Ok"]
     ctx.floor("throttle", "Ok result of resolve_inbound_request", oks, 1, exact=True)
-    CNT = r"^<std::iter::Filter as std::iter::Iterator>::count\(std::iter::Iterator::filter\(core::slice::iter\(<std::vec::Vec as std::ops::Deref>::deref\(self\.throttled_clients\)\), closure:[^\[]*\[sender\]\)\)$"
+    LEN = "std::vec::Vec::len(%s)" % THR
+    cnt_calls = [s for s in r.call_sites(r"Iterator>::count$|Iterator::count$") if THR in R.site(s) and "Iterator::filter(" in R.site(s)]
+    CNT = R.site(cnt_calls[0]) if cnt_calls else "?"
+
+    def below(count, limit):
+        return P.rel_edges(r, lambda op, a, b: op == "Lt" and R.r(a) == count and R.r(b) == limit)
+
+    def weak(count, limit):
+        return P.rel_edges(r, lambda op, a, b: op == "Le" and R.r(a) == count and R.r(b) == limit)
     for s, e in oks:
-        lib.limit_guard(ctx, "throttle", "global limit is strict", s, r"^std::vec::Vec::len\(self\.throttled_clients\)$", r"^self\.config\.throttle_clients_global_max$", "throttled_clients.len() < throttle_clients_global_max")
-        lib.limit_guard(ctx, "throttle", "per-peer limit is strict", s, CNT, r"^self\.config\.throttle_clients_peer_max$", "count(throttled entries of sender) < throttle_clients_peer_max")
-        ctx.guarded("throttle", "one dial-back per peer", s, lambda c, rr, l: l == "false" and rr == "std::collections::HashMap::contains_key(self.ongoing_inbound, sender)", "no ongoing dial-back for the sender")
-        ctx.guarded("throttle", "the request names its sender", s, lambda c, rr, l: (l == "false" and rr == "std::cmp::PartialEq::ne(request.peer_id, sender)") or (l == "true" and rr == "std::cmp::PartialEq::eq(request.peer_id, sender)"), "request.peer_id == sender")
-        ctx.guarded("throttle", "at least one address", s, lambda c, rr, l: l == "false" and rr == "std::vec::Vec::is_empty(addrs)", "!addrs.is_empty()")
-        ctx.ob("throttle", "Ok carries the filtered addresses", render(e) == "std::result::Result::Ok{0: addrs}", s.loc(), render(e))
-    al = [l for l, n in r.names.items() if n == "addrs"]
-    src = render(r.init_expr(al[0])) if len(al) == 1 else ""
-    ok = src.startswith("libp2p_autonat::v1::behaviour::as_server::AsServer::filter_valid_addrs(sender, request.addresses, <std::result::Result as std::ops::Try>::branch(std::option::Option::ok_or_else(std::iter::Iterator::find_map("
-                        "std::collections::HashMap::values(std::option::Option::expect(std::collections::HashMap::get(self.connected, sender), 'Peer is connected.')), closure:")
-    ctx.ob("throttle", "addresses = filter_valid_addrs(sender, request.addresses, an observed address of the sender's connections)", ok, "%s:%d" % (r.file, r.line), src[:200])
-    tr = [s for s in r.call_sites(r"Vec::truncate$") if render(r.site_expr(s)) == "std::vec::Vec::truncate(addrs, self.config.max_peer_addresses)"]
-    ok = len(tr) == 1 and bool(oks) and lib.count_range(r, [0], [oks[0][0].bb], lib.bbs(tr)) == (1, 1)
-    ctx.ob("throttle", "at most max_peer_addresses are dialled", ok, tr[0].loc() if tr else "", "addrs.truncate(max_peer_addresses) on every path to Ok")
-    cl = [c for c in prog.children(r) if c.kind == "closure"]
-    txt = {c.npath.split("::")[-1]: [render(x) for _, x in ret_exprs(c)] for c in cl}
-    ctx.ob("throttle", "per-peer count matches the sender", ["std::cmp::impls::eq(arg2.0, ^sender)"] in txt.values() or ["<libp2p_core::PeerId as std::cmp::PartialEq>::eq(arg2.0, ^sender)"] in txt.values(), msg=str(txt)[:300])
-    exp = [v for v in txt.values() if v and "partial" not in v[0] and re.match(r"^std::cmp::PartialOrd::lt\(<web_time::Instant as std::ops::Add>::add\(arg2\.1, \^\**self\.config\.throttle_clients_period\), web_time::Instant::now\(\)\)$", v[0])]
-    dr = [render(r.site_expr(s)) for s in r.call_sites(r"Vec::drain$")]
-    ok = len(exp) == 1 and len(dr) == 1 and dr[0].startswith("std::vec::Vec::drain(self.throttled_clients, std::ops::RangeTo::RangeTo{end: core::slice::partition_point(<std::vec::Vec as std::ops::Deref>::deref(self.throttled_clients), closure:")
-    ctx.ob("throttle", "only expired entries (time + period < now) are forgotten", ok, "%s:%d" % (r.file, r.line), str(dr)[:160])
-    # ================================================================= handle_event
+        for nm, count, limit in (("global limit is strict", LEN, CFG + ".throttle_clients_global_max"), ("per-peer limit is strict", CNT, CFG + ".throttle_clients_peer_max")):
+            ok = P.must_pass(r, s.bb, below(count, limit))
+            msg = "Ok is reachable only with count < limit"
+            if not ok:
+                msg = "a dial-back is accepted without a strict `count < limit` guard" + (" — only `count <= limit` protects it, which admits limit + 1" if P.must_pass(r, s.bb, set(below(count, limit)) | set(weak(count, limit))) else "")
+            ctx.ob("throttle", nm, ok, s.loc(), msg)
+        ctx.ob("throttle", "one dial-back per peer", P.must_pass(r, s.bb, P.truth_edges(r, lambda y: R.r(y) == "std::collections::HashMap::contains_key(%s, $2)" % ONG, False)), s.loc(), "no ongoing dial-back for the sender")
+        ctx.ob("throttle", "the request names its sender", P.must_pass(r, s.bb, P.rel_edges(r, lambda op, a, b: op == "Eq" and {R.r(a), R.r(b)} == {"$2", "$3.peer_id"})), s.loc(), "request.peer_id == sender")
+        al = dict(e[4])["0"]
+        ctx.ob("throttle", "Ok carries the filtered addresses", al[0] == "local", s.loc(), R.r(e))
+        if al[0] != "local":
+            continue
+        AL = al[1]
+        RI = P.Norm(r, ids=True)
+        ctx.ob("throttle", "at least one address", P.must_pass(r, s.bb, P.truth_edges(r, lambda y: RI.r(y) == "std::vec::Vec::is_empty(%%%d)" % AL, False)), s.loc(), "!addrs.is_empty()")
+        src = R.r(r.init_expr(AL))
+        ok = re.match(r"^libp2p_autonat::v1::behaviour::as_server::AsServer::filter_valid_addrs\(\$2, \$3\.addresses, (std::option::Option::ok_or_else\()?std::iter::Iterator::find_map\(std::collections::HashMap::values\(std::collections::HashMap::get\(%s, \$2\)@\+\), closure\[\]\)" % re.escape(CON), src) is not None
+        ctx.ob("throttle", "addresses = filter_valid_addrs(sender, request.addresses, an observed address of the sender's connections)", ok, "%s:%d" % (r.file, r.line), src[:200])
+        tr = [x for x in r.call_sites(r"Vec::truncate$") if RI.site(x) == "std::vec::Vec::truncate(%%%d, %s.max_peer_addresses)" % (AL, CFG)]
+        ok = len(tr) == 1 and lib.count_range(r, [0], [s.bb], lib.bbs(tr)) == (1, 1)
+        ctx.ob("throttle", "at most max_peer_addresses are dialled", ok, tr[0].loc() if tr else "", "addrs.truncate(max_peer_addresses) on every path to Ok")
+    for s in cnt_calls[:1]:
+        cs = P.closures_in(prog, r, r.site_expr(s))
+        txt = []
+        for x, cb in cs[:1]:
+            for _, y in P.ret_exprs(cb):
+                c = P.cmpnf(y)
+                txt.append("%s(%s)" % (c[0], ", ".join(sorted([P.rr(prog, cb, c[1]), P.rr(prog, cb, c[2])]))) if c else P.Norm(cb).r(y))
+        ctx.ob("throttle", "per-peer count matches the sender", txt == ["Eq($2, $2.0)"], s.loc(), str(txt))
+    ctx.ob("throttle", "floor:per-peer count", len(cnt_calls) == 1, nontrivial=False, msg=str(len(cnt_calls)))
+    dr = [s for s in r.call_sites(r"Vec::drain$") if R.r(r.site_expr(s)[2][0]) == THR]
+    ok = len(dr) == 1
+    txt = ""
+    if ok:
+        rng = r.site_expr(dr[0])[2][1]
+        ok = rng[0] == "agg" and strip_generics(rng[2]).endswith("RangeTo") and P.call_is(dict(rng[4]).get("end", ("x",)), r"partition_point$")
+        if ok:
+            pp = dict(rng[4])["end"]
+            cs = P.closures_in(prog, r, pp)
+            exp = []
+            for x, cb in cs[:1]:
+                for _, y in P.ret_exprs(cb):
+                    c = P.cmpnf(y)
+                    # expired <=> time + period < now
+                    if c and c[0] == "Lt" and P.call_is(c[1], r"Instant as std::ops::Add>::add$") and P.Norm(cb).r(c[2]) == "web_time::Instant::now()" and P.Norm(cb).r(c[1][2][0]) == "$2.1":
+                        per = c[1][2][1]
+                        exp.append(per[0] == "field" and per[2] == "throttle_clients_period")
+                    else:
+                        exp.append(False)
+            ok = exp == [True] and THR in R.r(pp[2][0])
+            txt = R.r(pp)[:120]
+    ctx.ob("throttle", "only expired entries (time + period < now) are forgotten", ok, "%s:%d" % (r.file, r.line), txt)
+    # ================================================================= handle_event(self, event = $2)
     h = ctx.body(AN, r"^libp2p_autonat::<v1::behaviour::as_server::AsServer as v1::behaviour::HandleInnerEvent>::handle_event$")
+    H = P.Norm(h)
     hrets = h.return_blocks()
     rc = h.call_sites(r"AsServer::resolve_inbound_request$")
     ctx.floor("dial", "resolve_inbound_request call", rc, 1, exact=True)
-    RES = render(h.site_expr(rc[0])) if rc else "?"
-    ctx.ob("dial", "the request is resolved for the peer that sent it", RES == "libp2p_autonat::v1::behaviour::as_server::AsServer::resolve_inbound_request(self, event@Message.peer, event@Message.message@Request.request)", rc[0].loc() if rc else "", RES)
-    oke = [t for _, t in lib.switch_edges_on_site(h, rc[0], {"Ok"})] if rc else []
-    erre = [t for _, t in lib.switch_edges_on_site(h, rc[0], {"Err"})] if rc else []
-    dial = [s for s in h.call_sites(r"WithPeerIdWithAddresses::build$|dial_opts::.*::build$")]
-    ins = [s for s in h.call_sites(r"HashMap::insert$") if render(h.site_expr(s)[2][0]) == "self.ongoing_inbound"]
-    psh = [s for s in h.call_sites(r"Vec::push$") if render(h.site_expr(s)[2][0]) == "self.throttled_clients"]
+    RES = H.site(rc[0]) if rc else "?"
+    PEER = "$2@Message.peer"
+    ctx.ob("dial", "the request is resolved for the peer that sent it", RES == "libp2p_autonat::v1::behaviour::as_server::AsServer::resolve_inbound_request(self, %s, $2@Message.message@Request.request)" % PEER, rc[0].loc() if rc else "", RES)
+    oke = P.targets(P.outcome_edges(h, P.is_call_at(rc[0]), True)) if rc else []
+    dial = [s for s in h.call_sites(r"dial_opts::.*::build$")]
+    ins = [s for s in h.call_sites(r"HashMap::insert$") if H.r(h.site_expr(s)[2][0]) == ONG]
+    psh = [s for s in h.call_sites(r"Vec::push$") if H.r(h.site_expr(s)[2][0]) == THR]
     ctx.floor("dial", "DialOpts build", dial, 1, exact=True)
     ctx.floor("dial", "ongoing_inbound.insert", ins, 1, exact=True)
     ctx.floor("dial", "throttled_clients.push", psh, 1, exact=True)
@@ -237,34 +277,37 @@ def _check(ctx, prog):
             ok = bool(oke) and h.must_pass_nodes([0], [s.bb], oke)
             ctx.ob("dial", "%s only for an accepted request" % nm, ok, s.loc(), "reachable only through the Ok edge of resolve_inbound_request")
     for s in dial:
-        e = render(h.site_expr(s))
-        ctx.ob("dial", "dialled addresses are the resolved ones", "WithPeerId::addresses(" in e and e.count(RES + "@Ok.0") >= 1 and re.search(r"WithPeerId::addresses\(.*, %s@Ok\.0\)" % re.escape(RES), e) is not None, s.loc(), e[-200:])
-        ctx.ob("dial", "the dial-back targets the requester", "libp2p_swarm::dial_opts::DialOpts::peer_id(event@Message.peer)" in e, s.loc(), "")
+        e = h.site_expr(s)
+        adds = [x for x in mir.walk(e) if P.call_is(x, r"dial_opts::WithPeerId::addresses$")]
+        ctx.ob("dial", "dialled addresses are the resolved ones", len(adds) == 1 and H.r(adds[0][2][1]) in (RES + "@+", "clone(%s@+)" % RES), s.loc(), H.r(adds[0][2][1])[-120:] if adds else "")
+        ctx.ob("dial", "the dial-back targets the requester", "libp2p_swarm::dial_opts::DialOpts::peer_id(%s)" % PEER in H.r(e), s.loc(), "")
     for s in ins:
-        a = [render(x) for x in h.site_expr(s)[2]]
-        ctx.ob("dial", "ongoing dial-back is keyed by the requester and remembers the resolved addresses", a[1] == "event@Message.peer" and "2: <std::vec::Vec as std::clone::Clone>::clone(%s@Ok.0)" % RES in a[2], s.loc(), a[2][:160])
+        a = h.site_expr(s)[2]
+        vals = [H.r(x) for _, x in a[2][4]] if a[2][0] == "agg" else []
+        ctx.ob("dial", "ongoing dial-back is keyed by the requester and remembers the resolved addresses", H.r(a[1]) == PEER and ("clone(%s@+)" % RES in vals or RES + "@+" in vals), s.loc(), str(vals)[:200])
     for s in psh:
-        a = render(h.site_expr(s)[2][1])
-        ctx.ob("dial", "the throttle entry names the requester", a == "tuple{0: event@Message.peer, 1: web_time::Instant::now()}", s.loc(), a)
-    # who else dials / registers in the server module
+        a = H.r(h.site_expr(s)[2][1])
+        ctx.ob("dial", "the throttle entry names the requester", a == "tuple{0: %s, 1: web_time::Instant::now()}" % PEER, s.loc(), a)
     who = {"dial": set(), "insert": set(), "push": set()}
     for b in prog.bodies(AN):
         if "v1::behaviour::as_server" not in b.npath:
             continue
+        BN2 = P.Norm(b)
         for s in b.stmt_sites(lambda st: st["k"] == "assign" and st["r"]["k"] == "agg" and st["r"]["ak"] == "adt" and strip_generics(st["r"]["adt"]) == "libp2p_swarm::ToSwarm" and st["r"]["variant"] == "Dial"):
             who["dial"].add(b.npath)
         for s in b.call_sites(r"HashMap::(insert|entry)$"):
-            if "ongoing_inbound" in render(b.site_expr(s)[2][0]):
+            if ("." + F_ONG) in BN2.r(b.site_expr(s)[2][0]):
                 who["insert"].add(b.npath)
         for s in b.call_sites(r"Vec::(push|insert|extend|append)$"):
-            if "throttled_clients" in render(b.site_expr(s)[2][0]):
+            if ("." + F_THR) in BN2.r(b.site_expr(s)[2][0]):
                 who["push"].add(b.npath)
     ctx.ob("dial", "only handle_event dials, registers and counts", all(v == {h.npath} for v in who.values()), msg=str({k: sorted(v) for k, v in who.items()}))
     rem = set()
     for b in prog.bodies(AN):
         if "v1::behaviour" not in b.npath:
             continue
+        BN2 = P.Norm(b)
         for s in b.call_sites(r"Vec::(drain|clear|retain|remove|pop|truncate)$"):
-            if "throttled_clients" in render(b.site_expr(s)[2][0]):
+            if ("." + F_THR) in BN2.r(b.site_expr(s)[2][0]):
                 rem.add(b.npath)
     ctx.ob("throttle", "throttle entries are forgotten only by the expiry drain", rem == {r.npath}, msg=str(sorted(rem)))
